@@ -936,9 +936,12 @@ func (o *ovsdbClient) transact(ctx context.Context, dbName string, skipChWrite b
 // MonitorAll is a convenience method to monitor every table/column
 func (o *ovsdbClient) MonitorAll(ctx context.Context) (MonitorCookie, error) {
 	m := newMonitor()
-	for name := range o.primaryDB().model.Types() {
+	db := o.primaryDB()
+	db.modelMutex.RLock()
+	for name := range db.model.Types() {
 		m.Tables = append(m.Tables, TableMonitor{Table: name})
 	}
+	db.modelMutex.RUnlock()
 	return o.Monitor(ctx, m)
 }
 
@@ -1565,6 +1568,15 @@ func waitForCacheConsistent(ctx context.Context, db *database, logger *logr.Logg
 	}
 }
 
+// currentAPI returns the API of the primary database; a Connect that follows
+// a Close replaces it along with the cache
+func (o *ovsdbClient) currentAPI() API {
+	db := o.primaryDB()
+	db.cacheMutex.RLock()
+	defer db.cacheMutex.RUnlock()
+	return db.api
+}
+
 func hasMonitors(db *database) bool {
 	db.monitorsMutex.Lock()
 	defer db.monitorsMutex.Unlock()
@@ -1585,7 +1597,7 @@ func (o *ovsdbClient) Get(ctx context.Context, model model.Model) error {
 
 // Create implements the API interface's Create function
 func (o *ovsdbClient) Create(models ...model.Model) ([]ovsdb.Operation, error) {
-	return o.primaryDB().api.Create(models...)
+	return o.currentAPI().Create(models...)
 }
 
 // List implements the API interface's List function
@@ -1598,20 +1610,20 @@ func (o *ovsdbClient) List(ctx context.Context, result interface{}) error {
 
 // Where implements the API interface's Where function
 func (o *ovsdbClient) Where(models ...model.Model) ConditionalAPI {
-	return o.primaryDB().api.Where(models...)
+	return o.currentAPI().Where(models...)
 }
 
 // WhereAny implements the API interface's WhereAny function
 func (o *ovsdbClient) WhereAny(m model.Model, conditions ...model.Condition) ConditionalAPI {
-	return o.primaryDB().api.WhereAny(m, conditions...)
+	return o.currentAPI().WhereAny(m, conditions...)
 }
 
 // WhereAll implements the API interface's WhereAll function
 func (o *ovsdbClient) WhereAll(m model.Model, conditions ...model.Condition) ConditionalAPI {
-	return o.primaryDB().api.WhereAll(m, conditions...)
+	return o.currentAPI().WhereAll(m, conditions...)
 }
 
 // WhereCache implements the API interface's WhereCache function
 func (o *ovsdbClient) WhereCache(predicate interface{}) ConditionalAPI {
-	return o.primaryDB().api.WhereCache(predicate)
+	return o.currentAPI().WhereCache(predicate)
 }
